@@ -90,6 +90,7 @@ func New(ttl time.Duration) (*ReplayFilter, error) {
 func (f *ReplayFilter) TestAndSet(now time.Time, buf []byte) bool {
 	digest := siphash.Hash(f.key[0], f.key[1], buf)
 
+	verifGate("replayfilter.prelock", buf)
 	f.Lock()
 	defer f.Unlock()
 
